@@ -388,7 +388,9 @@ func TestC06(t *testing.T) {
 			// an error inside a substitution, with more input behind it
 			"echo $(a ; ; -b c d e f) g", "x `a | | b c d` e f", "echo $(a ; ; b c d 'x", "echo \"$(a && && b c)\" d e", "echo $(a $(b ; ; c d) e) f g", "a $((1 + $(b ; ; c d e) )) f",
 			// the parser has given up before the substitution, whose own parse fails as well
-			"a | | $(b | | -c -d) e", "a ; ; `b && && c d` e f", "a | | \"$(b ; ; c d)\" e f", ") $(a | | b c) d", "a | | $(b $(c ; ; d e) f) g", "a | | x$((1 + $(b ; ; c d) ))y z", "{ a; } } $(b | | c d e) f", "a | | $(cat <<E ; ; b c\nE\n) d"} {
+			"a | | $(b | | -c -d) e", "a ; ; `b && && c d` e f", "a | | \"$(b ; ; c d)\" e f", ") $(a | | b c) d", "a | | $(b $(c ; ; d e) f) g", "a | | x$((1 + $(b ; ; c d) ))y z", "{ a; } } $(b | | c d e) f", "a | | $(cat <<E ; ; b c\nE\n) d",
+			// a here-document is pending when the parser fails on the last token of the line
+			"cat <<E ; ;\nbody\nE\nx\n", "cat <<E & &\nb\nE\n", "cat <<E | &&\nb\nE\n", "cat <<E; (;\nb\nE\n", "a <<E1 | b <<E2 | |\n1\nE1\n2\nE2\n", "cat <<-E )\n\tb\n\tE\n", "cat <<E fi\nb\nE\n", "{ cat <<E; } }\nb\nE\n"} {
 			explore(t, c06Case{Kind: "parse", Src: src}, nil, false)
 		}
 		for _, e := range c06EvalExprs {
